@@ -495,16 +495,16 @@ def splice_fn(fn_text, spec, notes):
             bodyins = ''
             if inv.get('body'):
                 bodyins = '\n' + inv['body'].rstrip() + '\n'
-            if inv.get('body_end'):
-                close = match_close(mb, k)
-                body = body[:close] + inv['body_end'].rstrip() + '\n' + body[close:]
             close = match_close(mb, k)
             nxt = mb[close + 1:].lstrip()
-            if nxt.startswith('{') and not inv.get('after'):
-                # Verus' clause parser: a loop body directly followed by another block is ambiguous; an empty statement separates them
-                body = body[:close + 1] + ';' + body[close + 1:]
+            # insert behind the closing brace first, so that `close` stays valid for the body_end insertion
             if inv.get('after'):
                 body = body[:close + 1] + '\n' + inv['after'].rstrip() + '\n' + body[close + 1:]
+            elif nxt.startswith('{'):
+                # Verus' clause parser: a loop body directly followed by another block is ambiguous; an empty statement separates them
+                body = body[:close + 1] + ';' + body[close + 1:]
+            if inv.get('body_end'):
+                body = body[:close] + inv['body_end'].rstrip() + '\n' + body[close:]
             body = body[:k] + ins + '\n      {' + bodyins + body[k + 1:]
     if spec.get('exit'):
         k = body.rstrip().rfind('}')
